@@ -779,6 +779,16 @@ impl C10 {
                     if !(err <= allow) {
                         rep.fail("kernel-closed-form", "kernel-apply", format!("{}: K({:?}, {:?}) = {:e}, closed form {:e}", ctx, pts[i], pts[j], got, want));
                     }
+                    // tiny values are values too: where the closed form is a positive number the element type can still
+                    // represent (at least 64 units of its smallest subnormal), the kernel must not be exactly zero and
+                    // must be of the right size (the absolute test above cannot see anything below 1e-16)
+                    let tiny = 64.0 * if case.f32m { f32::from_bits(1) as f64 } else { f64::from_bits(1) };
+                    if case.kernel.kind == "rbf" && want >= tiny && want < 1e-30 {
+                        rep.count("probe.rbf-value-below-1e-30", 1);
+                        if !(got >= 0.25 * want && got <= 4.0 * want) {
+                            rep.fail("kernel-closed-form", "kernel-apply-tiny-value", format!("{}: K({:?}, {:?}) = {:e}, closed form {:e}", ctx, pts[i], pts[j], got, want));
+                        }
+                    }
                 }
             }
         }
